@@ -181,7 +181,11 @@ pub mod maps {
     impl<T: std::borrow::Borrow<MapData>, K: Pod, V: Pod> HashMap<T, K, V> {
         pub fn get(&self, key: &K, _flags: u64) -> Result<V, MapError> {
             let idx = self.inner.borrow().idx;
-            match kernel::map_lookup(idx, bytes_of(key)) {
+            let found = kernel::map_lookup(idx, bytes_of(key));
+            if vrt::active() {
+                vrt::log("kern", format!("user lookup {} key={:02x?} task={} -> {}", kernel::MAP_NAMES[idx], bytes_of(key), vrt::sched::current_task(), if found.is_some() { "found" } else { "none" }));
+            }
+            match found {
                 Some(v) => from_bytes::<V>(&v).ok_or(MapError::KeyNotFound),
                 None => Err(MapError::KeyNotFound),
             }
@@ -214,7 +218,7 @@ pub mod maps {
             }
             let r = kernel::map_delete(idx, bytes_of(key));
             if vrt::active() {
-                vrt::log("kern", format!("user remove {} key={:02x?} -> {}", name, bytes_of(key), r));
+                vrt::log("kern", format!("user remove {} key={:02x?} task={} -> {}", name, bytes_of(key), vrt::sched::current_task(), r));
             }
             if r == 0 {
                 Ok(())
